@@ -3,7 +3,7 @@
    the documentation only).  Statements only; proofs are `exact <lemma of LayoutProofs>`. *)
 From Coq Require Import ZArith List Bool Lia.
 Import ListNotations.
-From XO Require Import Slots Strides BufOps Types Format Check LayoutProofs.
+From XO Require Import Slots Strides Perm BufOps Types Format Check LayoutProofs RoundTrip Complete.
 Open Scope Z_scope.
 
 (* header words: 8-byte little-endian two's complement, exact on the whole int64 range *)
@@ -36,9 +36,37 @@ Theorem C05_checker_sound : forall c, layout_ok c = None ->
     exists v, dec (lc_ty c) (lc_bytes c) 0 = Some (v, lc_size c) /\ val_eqb v (lc_val c) = true.
 Proof. exact layout_ok_sound. Qed.
 
+(* THE GENERAL ROUND TRIP, for every type of the grammar and every value, by induction over the
+   type (nested structs, dynamic offset tables, N-D arrays of static or dynamically sized items
+   under every axis order): wherever in a buffer the documented image of a value sits (padding
+   bytes arbitrary), the strict decoder -- written from the documentation only, checking every
+   redundant header word -- returns exactly that value and the image length as the size.
+   (Types with Ref/UnionRef have no [enc] image: the statement is about reference-free values;
+   references are C08/C09.  [len img < 2^62]: header words are int64.) *)
+Theorem C05_decode_encode : forall t v img m off,
+  enc t v = Some img -> sits img m off -> len img < 2^62 -> dec t m off = Some (v, len img).
+Proof. exact RT_all. Qed.
+Theorem C05_decode_encode_in_buffer : forall t v img pre bs post,
+  enc t v = Some img -> cells_match img bs = true -> len img < 2^62 ->
+  dec t (pre ++ bs ++ post) (len pre) = Some (v, len img).
+Proof. exact dec_enc_buffer. Qed.
+(* the image of a value of a statically sized type has the class size *)
+Theorem C05_static_size : forall t v img s, enc t v = Some img -> csize t = Some s -> len img = s.
+Proof. exact enc_static_size. Qed.
+(* memory position <-> logical index under an axis order, and the address computed from the strides *)
+Theorem C05_strides_address : forall sh order isz idx, Perm.is_perm order -> length sh = length order -> Strides.in_range sh idx ->
+  dot idx (get_strides sh order isz) = isz * Perm.mem_pos sh order idx.
+Proof. exact Perm.strides_address. Qed.
+
+(* ... and complete: bytes that carry the documented image of the value are never rejected *)
+Theorem C05_checker_complete : forall c img,
+  enc (lc_ty c) (lc_val c) = Some img -> len img = lc_size c -> lc_size c < 2^62 ->
+  cells_match img (lc_bytes c) = true -> layout_ok c = None.
+Proof. exact layout_ok_complete. Qed.
+
 (* compound types: decode∘encode on a struct holding a scalar, a string, a dynamic F-ordered
    2-D array of int32 and an F-ordered 2x2 array of strings, embedded at offset 3
-   (evaluation of the executable definitions; the general induction is staged, see DESIGN §7) *)
+   (evaluation of the executable definitions: an instance of C05_decode_encode, kept as non-vacuity witness) *)
 Definition ex_t := TStruct [TScalar I16; TString; TArray (TScalar I32) [None; Some 3] [1%nat;0%nat]; TArray TString [Some 2; Some 2] [1%nat;0%nat]].
 Definition ex_v := VStruct [VNum [1;2]; VStr [65;66] 16;
    VArr [2;3] [VNum [1;0;0;0]; VNum [2;0;0;0]; VNum [3;0;0;0]; VNum [4;0;0;0]; VNum [5;0;0;0]; VNum [6;0;0;0]];
@@ -56,3 +84,8 @@ Print Assumptions C05_decode_scalar.
 Print Assumptions C05_decode_string.
 Print Assumptions C05_match_sits.
 Print Assumptions C05_checker_sound.
+Print Assumptions C05_decode_encode.
+Print Assumptions C05_decode_encode_in_buffer.
+Print Assumptions C05_static_size.
+Print Assumptions C05_strides_address.
+Print Assumptions C05_checker_complete.
